@@ -263,7 +263,10 @@ def _nodes(draw, ids, budget, depth, in_subtest, in_td, strict, maxdepth, min_si
       g['s'] = _nodes(draw, ids, budget, depth + 1, in_subtest, in_td, strict, maxdepth, cfg=scfg) if draw(st.booleans()) else []
       g['m'] = _nodes(draw, ids, budget, depth + 1, in_subtest, in_td, strict, maxdepth, cfg=cfg)
       g['td'] = _nodes(draw, ids, budget, depth + 1, in_subtest, True, strict, maxdepth, min_size=1, cfg=cfg) if draw(st.integers(0, 4)) else []
-      if (g['s'] or g['td']) and draw(st.integers(0, 5)) == 0:
+      direct = [part for part in ('s', 'm', 'td') if len(g[part]) == 1 and g[part][0]['t'] in ('branch', 'subtest', 'seq') and draw(st.integers(0, 2)) == 0]
+      if direct:
+        g['direct'] = direct     # main=BranchSequence(...) rather than main=[BranchSequence(...)]: the node itself as the initializer
+      elif (g['s'] or g['td']) and draw(st.integers(0, 5)) == 0:
         # built through PhaseGroup.with_context(setup, teardown): 'second' = the creator has been used before, with the
         # setup / teardown nodes handed over as one-shot iterables (generators)
         g['via'] = draw(st.sampled_from(['context', 'context-second']))
@@ -816,8 +819,12 @@ def build_node(node, ctx, htf, plug_map=None):
     import attr as _attr  # pylint: disable=g-import-not-at-top
     return _attr.evolve(creator(*kids(node['m'])), name='g%d' % node['id'])
   if t == 'group':
-    return htf.PhaseGroup(setup=kids(node['s']) or None, main=kids(node['m']) or None,
-                          teardown=kids(node['td']) or None, name='g%d' % node['id'])
+    def part(key):
+      built = kids(node[key])
+      if key in (node.get('direct') or ()) and len(built) == 1:
+        return built[0]
+      return built or None
+    return htf.PhaseGroup(setup=part('s'), main=part('m'), teardown=part('td'), name='g%d' % node['id'])
   raise ValueError(t)
 
 
